@@ -164,6 +164,11 @@ func (p *Proposal) data() ([]byte, error) {
 		return nil, err
 	}
 
+	// Close verifies the payload's checksum and declared size.
+	if err := r.Close(); err != nil {
+		return nil, err
+	}
+
 	return buf.Bytes(), nil
 }
 
